@@ -224,6 +224,39 @@ def _init_cursor(ctx):
     gn = [c for c in ast.walk(ne) if isinstance(c, ast.Call) and norm(c.func) == "self.level.go_next"]
     ok = len(gn) == 2 and gn[0].lineno < lv[0].lineno < gn[1].lineno and bool(loops) and any(x is gn[1] for x in ast.walk(loops[0]))
     ctx.ob("C28.R6", site, "the cursor advances once in the current level and once in each level it returns to", ok, construct="advance-each-level")
+    _bitfield_bits(ctx)
+
+
+RAISING_CONVERSIONS = ("to_bytes", "pack", "pack_into")
+
+
+def _bitfield_bits(ctx):
+    """R7: a constant initialiser of a bit-field is whatever integer the program wrote (the C conversion to the field
+    width is a truncation, 6.3.1.3 / 6.7.2.1); the helper that spreads it over the field's bits is called with that
+    integer unchecked, so it has to be total."""
+    from .. import sym
+    B = "ppci/utils/bitfun.py"
+    CG = "ppci/lang/c/codegenerator.py"
+    ctx.rule("C28.R7", "bit-field initialisers: value_to_bits(v, bits) yields bit i of v for i in range(bits) for EVERY integer v (a value wider than the field is truncated, not passed to a conversion that raises OverflowError)", floor=3)
+    fn = ctx.fn(B, "value_to_bits")
+    site = B + ":value_to_bits"
+    v, bits = fn.args.args[0].arg, fn.args.args[1].arg
+    raising = [c for c in ast.walk(fn) if isinstance(c, ast.Call) and isinstance(c.func, ast.Attribute) and c.func.attr in RAISING_CONVERSIONS]
+    raises = [n for n in ast.walk(fn) if isinstance(n, (ast.Raise, ast.Assert))]
+    ctx.ob("C28.R7", site, "no size-checked conversion (int.to_bytes, struct.pack) and no raise/assert on the way: any integer is accepted", not raising and not raises, construct="total", node=(raising + raises)[0] if raising or raises else None,
+           detail="; ".join(norm(x)[:60] for x in raising + raises))
+    tests = [n for n in ast.walk(fn) if isinstance(n, ast.BinOp) and isinstance(n.op, ast.BitAnd)]
+    def bit_test(e):
+        t = " ".join(norm(e).split())
+        return any(t == f % dict(v=v) for f in ("1 << i & %(v)s", "%(v)s & 1 << i", "%(v)s >> i & 1", "(1 << i) & %(v)s"))
+    loops = [l for l in ast.walk(fn) if isinstance(l, (ast.For, ast.comprehension)) and " ".join(norm(l.iter).split()) == "range(%s)" % bits]
+    ok = len(loops) == 1 and any(bit_test(t) for t in tests) and norm(loops[0].target) == "i"
+    ctx.ob("C28.R7", site, "element i of the result is bit i of v (least significant first), for i in range(bits)", ok, construct="bit-i", detail="; ".join(" ".join(norm(t).split()) for t in tests)[:100])
+    gs = ctx.fn(CG, "CCodeGenerator.gen_global_initialize_struct")
+    use = [c for c in ast.walk(gs) if isinstance(c, ast.Call) and norm(c.func) == "value_to_bits"]
+    env = sym.single_assign_env(gs)
+    ok = len(use) == 1 and len(use[0].args) == 2 and "eval_expr" in norm(sym.deep_inline(use[0].args[1], env))
+    ctx.ob("C28.R7", CG + ":CCodeGenerator.gen_global_initialize_struct", "(context) the evaluated initialiser and the evaluated field width are handed to value_to_bits without a range check of their own", ok, construct="caller-unchecked", detail=norm(use[0]) if use else "")
 
 
 def _anc28(n):
